@@ -578,6 +578,16 @@ def ob_corpus(pid="C05", label="C05.e"):
 
 
 # ------------------------------------------------------------------------------------------------ C05.f valid-file witnesses (sizes)
+def rep(x, n):
+    """x repeated n times as a balanced concatenation tree (keeps the recursion depth of the translators logarithmic)"""
+    if n <= 0:
+        return EPS
+    if n == 1:
+        return x
+    h = n // 2
+    return ('cat', rep(x, h), rep(x, n - h))
+
+
 def ob_valid_witnesses(pid="C05", label="C05.f", big=False):
     """z3 picks members of valid-file languages with a size constraint (nesting depth, bracket level, argument count, line length,
     number of commands); each is run through the real cminx.main and must be processed to completion, documenting the last command.
@@ -591,8 +601,8 @@ def ob_valid_witnesses(pid="C05", label="C05.f", big=False):
         word = plus(rng("a", "z"))
         ident = cat(rng("a", "z"), star(alt(rng("a", "z"), chars("_"))))
         nl = lit("\n")
-        sizes = dict(paren=(40, 300) if big else (40,), level=(3, 9, 40) if big else (3, 9), nargs=(60, 400) if big else (60,),
-                     line=(500, 5000) if big else (500,), ncmds=(80, 600) if big else (80,))
+        sizes = dict(paren=(40, 200) if big else (40,), level=(3, 9, 40) if big else (3, 9), nargs=(60, 400) if big else (60,),
+                     line=(500, 3000) if big else (500,), ncmds=(80, 400) if big else (80,))
         cases = []
         for d in sizes["paren"]:
             inner = word
@@ -605,12 +615,12 @@ def ob_valid_witnesses(pid="C05", label="C05.f", big=False):
             cases.append(("bracket argument of level %d" % lv, cat(ident, lit("([" + eq + "["), body, lit("]" + eq + "])"), nl)))
             cases.append(("bracket comment of level %d" % lv, cat(lit("#[" + eq + "["), body, lit("]" + eq + "]"), nl, ident, lit("()"), nl)))
         for n in sizes["nargs"]:
-            cases.append(("%d arguments" % n, cat(ident, lit("("), word, cat(*[cat(lit(" "), word)] * (n - 1)), lit(")"), nl)))
+            cases.append(("%d arguments" % n, cat(ident, lit("("), word, rep(cat(lit(" "), word), n - 1), lit(")"), nl)))
         for n in sizes["line"]:
-            cases.append(("quoted argument of %d characters" % n, cat(ident, lit('("'), cat(*[rng("a", "z")] * n), lit('")'), nl)))
-            cases.append(("line comment of %d characters" % n, cat(lit("#"), cat(*[rng("a", "z")] * n), nl, ident, lit("()"), nl)))
+            cases.append(("quoted argument of %d characters" % n, cat(ident, lit('("'), rep(rng("a", "z"), n), lit('")'), nl)))
+            cases.append(("line comment of %d characters" % n, cat(lit("#"), rep(rng("a", "z"), n), nl, ident, lit("()"), nl)))
         for n in sizes["ncmds"]:
-            cases.append(("%d commands" % n, cat(*[cat(ident, lit("("), word, lit(")"), nl)] * n)))
+            cases.append(("%d commands" % n, rep(cat(ident, lit("("), word, lit(")"), nl), n)))
         tmp = os.path.join(work, "valid")
         shutil.rmtree(tmp, ignore_errors=True)
         os.makedirs(tmp)
